@@ -12,6 +12,7 @@ import (
 	"github.com/llir/ll/selector"
 	"github.com/llir/llvm/asm"
 	"github.com/llir/llvm/ir"
+	"github.com/llir/llvm/ir/types"
 	"github.com/llir/llvm/zzsim/simrt"
 )
 
@@ -42,29 +43,85 @@ type Site struct {
 	// only in ANOTHER namespace (e.g. %g where only @g is defined): the
 	// reference must not be bound to that other entity.
 	Alt string `json:"alt,omitempty"`
+	// Num is an unnamed (numeric) identifier of the same sigil that is certainly
+	// undefined where the site is: one past an upper bound of the IDs that the
+	// enclosing function (for locals), the module (for globals) or the metadata
+	// definitions can have.
+	Num string `json:"num,omitempty"`
 }
 
 // C05Scenario is one faulted parse.
 type C05Scenario struct {
-	Module string `json:"module"`
-	Index  int    `json:"index"`           // index of the site in the module's site list
-	Cross  bool   `json:"cross,omitempty"` // redirect to Site.Alt (a name defined in another namespace) instead of a fresh name
-	Site   Site   `json:"site"`
-	Orders int    `json:"orders"`     // number of seeded translation orders besides the canonical one
-	Seed   uint64 `json:"order_seed"` // seed of those orders
+	Module  string `json:"module"`
+	Index   int    `json:"index"`             // index of the site in the module's site list
+	Cross   bool   `json:"cross,omitempty"`   // redirect to Site.Alt (a name defined in another namespace) instead of a fresh name
+	Numeric bool   `json:"numeric,omitempty"` // redirect to Site.Num (an unnamed ID just past the last possible one)
+	Site    Site   `json:"site"`
+	Orders  int    `json:"orders"`     // number of seeded translation orders besides the canonical one
+	Seed    uint64 `json:"order_seed"` // seed of those orders
 }
 
 type siteWalker struct {
-	text    string
-	sites   []Site
-	globals []string // names (without sigil) of named globals/functions
-	locals  []string // names of named locals, parameters, labels
+	text      string
+	funcNum   string // "%K" for the function being walked
+	firstFree map[string]int
+	nGlobal   int // top-level global entities
+	maxMD     int // largest metadata ID in the text
+	sites     []Site
+	globals   []string // names (without sigil) of named globals/functions
+	locals    []string // names of named locals, parameters, labels
 }
 
 func nodeKids(n *ast.Node) []*ast.Node { return n.Children(selector.Any) }
 
 func (w *siteWalker) add(kind string, n *ast.Node) {
-	w.sites = append(w.sites, Site{Kind: kind, Off: n.Offset(), End: n.Endoffset(), Text: n.Text()})
+	s := Site{Kind: kind, Off: n.Offset(), End: n.Endoffset(), Text: n.Text()}
+	if strings.HasPrefix(n.Text(), "%") && !strings.HasPrefix(kind, "use:named type") {
+		s.Num = w.funcNum
+	}
+	w.sites = append(w.sites, s)
+}
+
+// countLocalsUpperBound returns an upper bound of the number of numbered locals
+// of a function definition: every parameter, block, instruction and terminator
+// could take one ID.
+func countLocalsUpperBound(fn *ast.Node) int {
+	n := 0
+	var rec func(x *ast.Node)
+	rec = func(x *ast.Node) {
+		switch x.Type() {
+		case ll.Param, ll.BasicBlock:
+			n++
+		}
+		for _, c := range nodeKids(x) {
+			if x.Type() == ll.BasicBlock {
+				n++ // every direct child (instruction, terminator, label) counted generously
+			}
+			rec(c)
+		}
+	}
+	rec(fn)
+	return n + 1
+}
+
+// countIdent counts the occurrences of identifier id in text as a whole token.
+func countIdent(text, id string) int {
+	n := 0
+	for i := 0; ; {
+		j := strings.Index(text[i:], id)
+		if j < 0 {
+			return n
+		}
+		end := i + j + len(id)
+		if end >= len(text) || !isIdentByte(text[end]) {
+			n++
+		}
+		i = end
+	}
+}
+
+func isIdentByte(c byte) bool {
+	return c == '_' || c == '.' || c == '$' || c == '-' || c >= '0' && c <= '9' || c >= 'a' && c <= 'z' || c >= 'A' && c <= 'Z'
 }
 
 // isUnnamedIdent reports whether an identifier text is a numeric ID (@3, %7).
@@ -81,6 +138,16 @@ func isUnnamedIdent(s string) bool {
 }
 
 func (w *siteWalker) walk(n *ast.Node, parent *ast.Node, idxInParent int, sameTypeIdx int) {
+	if n.Type() == ll.FuncDef {
+		w.funcNum = fmt.Sprintf("%%%d", countLocalsUpperBound(n))
+		if hdr := n.Child(selector.FuncHeader); hdr != nil {
+			if id := hdr.Child(selector.GlobalIdent); id != nil {
+				if k, ok := w.firstFree[id.Text()]; ok {
+					w.funcNum = fmt.Sprintf("%%%d", k)
+				}
+			}
+		}
+	}
 	switch n.Type() {
 	case ll.GlobalIdent:
 		switch parent.Type() {
@@ -122,10 +189,21 @@ func (w *siteWalker) walk(n *ast.Node, parent *ast.Node, idxInParent int, sameTy
 			} else {
 				w.add("use:local (phi incoming value)", n)
 			}
-		case ll.BlockAddressConst:
-			w.add("use:blockaddress block", n)
-		case ll.UseListOrderBB:
-			w.add("use:uselistorder_bb block", n)
+		case ll.BlockAddressConst, ll.UseListOrderBB:
+			kind := "use:blockaddress block"
+			if parent.Type() == ll.UseListOrderBB {
+				kind = "use:uselistorder_bb block"
+			}
+			// The block lives in the namespace of the REFERENCED function.
+			saved := w.funcNum
+			w.funcNum = ""
+			if fn := parent.Child(selector.GlobalIdent); fn != nil {
+				if k, ok := w.firstFree[fn.Text()]; ok {
+					w.funcNum = fmt.Sprintf("%%%d", k)
+				}
+			}
+			w.add(kind, n)
+			w.funcNum = saved
 		case ll.CatchPadInst:
 			w.add("use:local (catchpad within)", n)
 		default:
@@ -136,6 +214,10 @@ func (w *siteWalker) walk(n *ast.Node, parent *ast.Node, idxInParent int, sameTy
 			w.add("use:comdat", n)
 		}
 	case ll.MetadataID:
+		var id int
+		if _, err := fmt.Sscanf(n.Text(), "!%d", &id); err == nil && id > w.maxMD {
+			w.maxMD = id
+		}
 		if parent.Type() == ll.MetadataDef && sameTypeIdx == 0 && idxInParent == 0 {
 			break
 		}
@@ -150,10 +232,12 @@ func (w *siteWalker) walk(n *ast.Node, parent *ast.Node, idxInParent int, sameTy
 	case ll.ComdatDef:
 		w.dupEntity("dup:comdat", n)
 	case ll.GlobalDecl, ll.IndirectSymbolDef:
+		w.nGlobal++
 		if name := n.Child(selector.GlobalIdent); name != nil && !isUnnamedIdent(name.Text()) {
 			w.dupEntity("dup:global", n)
 		}
 	case ll.FuncDecl, ll.FuncDef:
+		w.nGlobal++
 		if hdr := n.Child(selector.FuncHeader); hdr != nil {
 			if name := hdr.Child(selector.GlobalIdent); name != nil && !isUnnamedIdent(name.Text()) {
 				w.dupEntity("dup:function", n)
@@ -177,7 +261,7 @@ func (w *siteWalker) walk(n *ast.Node, parent *ast.Node, idxInParent int, sameTy
 						firstInst = id
 					}
 				case ll.LocalDefTerm:
-					if id := c.Child(selector.LocalIdent); id != nil && !isUnnamedIdent(id.Text()) && firstInst != nil && firstInst.Text() != id.Text() {
+					if id := c.Child(selector.LocalIdent); id != nil && !isUnnamedIdent(id.Text()) && firstInst != nil && firstInst.Text() != id.Text() && countIdent(n.Text(), id.Text()) == 1 {
 						w.sites = append(w.sites, Site{Kind: "dup:local (terminator result renamed to an instruction's name)", Off: id.Offset(), End: id.Endoffset(), Text: id.Text(), Replace: firstInst.Text()})
 					}
 				}
@@ -210,6 +294,9 @@ func (w *siteWalker) walk(n *ast.Node, parent *ast.Node, idxInParent int, sameTy
 		counts[c.Type()]++
 		w.walk(c, n, i, k)
 	}
+	if n.Type() == ll.FuncDef {
+		w.funcNum = ""
+	}
 }
 
 func (w *siteWalker) dupEntity(kind string, n *ast.Node) {
@@ -223,7 +310,43 @@ func c05Sites(name, text string) ([]Site, error) {
 	if err != nil {
 		return nil, err
 	}
-	w := &siteWalker{text: text}
+	w := &siteWalker{text: text, firstFree: map[string]int{}}
+	// The first unused unnamed local ID of every function definition, from the
+	// translation of the valid module (the IDs LLVM and the library agree on).
+	if m, err := asm.ParseString(name, text); err == nil && m != nil {
+		for _, f := range m.Funcs {
+			if len(f.Blocks) == 0 {
+				continue
+			}
+			k := 0
+			bump := func(unnamed bool) {
+				if unnamed {
+					k++
+				}
+			}
+			for _, p := range f.Params {
+				bump(p.IsUnnamed())
+			}
+			for _, b := range f.Blocks {
+				bump(b.IsUnnamed())
+				for _, in := range b.Insts {
+					if v, ok := in.(interface {
+						IsUnnamed() bool
+						Type() types.Type
+					}); ok && !v.Type().Equal(types.Void) {
+						bump(v.IsUnnamed())
+					}
+				}
+				if v, ok := b.Term.(interface {
+					IsUnnamed() bool
+					Type() types.Type
+				}); ok && !v.Type().Equal(types.Void) {
+					bump(v.IsUnnamed())
+				}
+			}
+			w.firstFree[f.Ident()] = k
+		}
+	}
 	w.walk(tree.Root(), tree.Root(), 0, 0)
 	// Cross-namespace alternatives.
 	isIn := func(set []string, x string) bool {
@@ -250,6 +373,12 @@ func c05Sites(name, text string) ([]Site, error) {
 	altComdat := pick(w.globals, "$", nil)      // $g where only @g exists
 	for i := range w.sites {
 		k := w.sites[i].Kind
+		switch {
+		case strings.HasPrefix(k, "use:global"), strings.HasSuffix(k, " function"):
+			w.sites[i].Num = fmt.Sprintf("@%d", w.nGlobal+1)
+		case strings.HasPrefix(k, "use:metadata"):
+			w.sites[i].Num = fmt.Sprintf("!%d", w.maxMD+1)
+		}
 		switch {
 		case strings.HasPrefix(k, "use:local"), strings.HasPrefix(k, "use:label"), strings.HasPrefix(k, "use:phi"), strings.HasPrefix(k, "use:named type"), strings.HasSuffix(k, " block"):
 			w.sites[i].Alt = altLocal
@@ -282,9 +411,12 @@ func freshIdent(text, old string) string {
 }
 
 // applyFault returns the faulted text.
-func applyFault(text string, s Site, cross bool) string {
+func applyFault(text string, s Site, cross, numeric bool) string {
 	switch {
 	case strings.HasPrefix(s.Kind, "use:"):
+		if numeric && s.Num != "" {
+			return text[:s.Off] + s.Num + text[s.End:]
+		}
 		if cross && s.Alt != "" {
 			return text[:s.Off] + s.Alt + text[s.End:]
 		}
@@ -347,7 +479,7 @@ func c05Run(sc *C05Scenario) *c05Outcome {
 		out.skip = "site does not fit the module text (stale replay file)"
 		return out
 	}
-	faulted := applyFault(text, sc.Site, sc.Cross)
+	faulted := applyFault(text, sc.Site, sc.Cross, sc.Numeric)
 	if _, err := ast.Parse(sc.Module, faulted); err != nil {
 		out.skip = "faulted text is not accepted by the grammar (site discarded)"
 		return out
@@ -446,11 +578,15 @@ func c05Search() {
 				sum.Skipped["sites not sampled in the quick tier"]++
 				continue
 			}
-			for _, cross := range []bool{false, true} {
+			for variant := 0; variant < 3; variant++ {
+				cross, numeric := variant == 1, variant == 2
 				if cross && (s.Alt == "" || !strings.HasPrefix(s.Kind, "use:")) {
 					continue
 				}
-				sc := &C05Scenario{Module: cf.Name, Index: i, Site: s, Cross: cross, Orders: orders, Seed: derive(*flagSeed, fmt.Sprintf("C05/%s/%d", cf.Name, i))}
+				if numeric && (s.Num == "" || !strings.HasPrefix(s.Kind, "use:") || s.Num == s.Text) {
+					continue
+				}
+				sc := &C05Scenario{Module: cf.Name, Index: i, Site: s, Cross: cross, Numeric: numeric, Orders: orders, Seed: derive(*flagSeed, fmt.Sprintf("C05/%s/%d", cf.Name, i))}
 				curScenario = sc
 				o := c05Run(sc)
 				if o.skip != "" {
@@ -462,12 +598,15 @@ func c05Search() {
 				if cross {
 					sum.Counters["faulted inputs redirected to a name defined in another namespace"]++
 				}
+				if numeric {
+					sum.Counters["faulted inputs redirected to an unnamed ID just past the last possible one"]++
+				}
 				sum.Counters["fault kind "+siteClass(s.Kind)]++
 				sum.Counters["map-range visits in non-canonical order"] += o.nonIdentity
 				if o.doubt {
 					sum.Skipped["injector doubt: llvm-as accepts the faulted text too"]++
 				}
-				distinct.add(hash64(cf.Name, s.Kind, fmt.Sprint(s.Off), fmt.Sprint(s.End), fmt.Sprint(cross)))
+				distinct.add(hash64(cf.Name, s.Kind, fmt.Sprint(s.Off), fmt.Sprint(s.End), fmt.Sprint(variant)))
 				if len(sum.Samples) < 4 && (u%211 == 7) {
 					sum.Samples = append(sum.Samples, map[string]interface{}{"module": cf.Name, "kind": s.Kind, "site": clip(s.Text, 60), "offset": s.Off, "orders": o.orders, "cross_namespace": cross})
 				}
